@@ -368,6 +368,17 @@ pub fn gen_median(rng: &mut Rng, tier: &Tier, acc_every: bool) -> Vec<Case> {
         let n = *rng.pick(&[2usize, 3, 4, 5, 8]);
         cases.extend(long_cases(rng, &[format!("median N={}", n)]));
     }
+    // a sample type with a niche (`bool`): empty slots must read as empty — before the first sample and all through the
+    // warm-up the filter and its accessors know only the samples they were given
+    for _ in 0..tier.n(30, 300) {
+        let n = *rng.pick(&[1usize, 2, 3, 4, 5]);
+        let mut vals: Vec<String> = (0..rng.range(1, 2 * n as i64 + 2)).map(|_| (*rng.pick(&["1", "1", "0"])).to_string()).collect();
+        if rng.chance(1, 3) {
+            let at = rng.range(0, vals.len() as i64) as usize;
+            vals.insert(at, "reset".to_string());
+        }
+        cases.push(median_case(n, " T=bl", &vals, true));
+    }
     // (d) widths beyond the range of a small index type
     for &n in WIDE_WIDTHS.iter() {
         for _ in 0..tier.n(1, 3) {
@@ -1261,6 +1272,25 @@ pub fn gen_classify9(rng: &mut Rng, tier: &Tier) -> Vec<Case> {
         cases.push(c);
     }
     cases.extend(long_cases(rng, &["slopes out=21,22,23".to_string(), "peaks out=21,22,23".to_string()]));
+    // the slope-driven peak detector on ANY slope sequence ("and all slope sequences"), not only those a slope filter
+    // produces from the start of a signal (whose first slope is always flat): exhaustively up to length 4, then random
+    let mut slope_seqs: Vec<Vec<i64>> = Vec::new();
+    for len in 1..=4 {
+        slope_seqs.extend(all_seqs(3, len));
+    }
+    for _ in 0..tier.n(40, 400) {
+        slope_seqs.push((0..rng.range(5, 12)).map(|_| rng.below(3) as i64).collect());
+    }
+    for s in slope_seqs {
+        let mut c = vec!["new 1 peaks_slopes out=21,22,23".to_string()];
+        for (i, code) in s.iter().enumerate() {
+            c.push(format!("f 1 {}", code));
+            if i == 1 && rng.chance(1, 6) {
+                c.push("reset 1".into());
+            }
+        }
+        cases.push(c);
+    }
     // composite-like samples (`3~`: what `(3.0, NaN)` is among lexicographically compared tuples — unequal even to itself,
     // yet greater / smaller than other values): still rising / falling against a different predecessor, flat otherwise
     for _ in 0..tier.n(80, 800) {
@@ -1356,7 +1386,9 @@ pub fn gen_reset(rng: &mut Rng, tier: &Tier) -> Vec<Case> {
         let t = if rng.chance(3, 4) { "f64" } else { "f32" };
         let mut c = vec![format!("new 1 {}", float_kind_line(rng, t))];
         for _ in 0..rng.range(1, 9) {
-            c.push(format!("f 1 {}", float_sample(rng, t)));
+            // (a quarter of the samples before the reset are not finite or at the ends of the range: whatever the state
+            // became, a reset filter is a fresh one)
+            c.push(format!("f 1 {}", if rng.chance(1, 4) { special_first(rng, t) } else { float_sample(rng, t) }));
         }
         c.push("reset 1".into());
         c.push("fresh 1 2".into());
@@ -1780,6 +1812,7 @@ fn with_coincidences(cases: Vec<Case>, rng: &mut Rng) -> Vec<Case> {
         let eligible = c.len() > 2
             && c[0].starts_with("new 1 ")
             && !c[0].contains(" T=") // exact rationals only (machine integers and floats have their own workloads)
+            && !c[0].contains("peaks_slopes") // (its inputs are slope codes, not samples)
             && c[1..].iter().all(|l| {
                 let t: Vec<&str> = l.split(' ').collect();
                 match t[0] {
